@@ -2,7 +2,7 @@
    Statements only; proofs are in Proofs/ValidateOverlap.v and Proofs/ValidateRules.v. *)
 From Coq Require Import List NArith ZArith String Bool.
 From GQL Require Import Exec.Syntax Validate.VSyntax Validate.Overlap Validate.OverlapSpec Validate.Rules
-     Exec.Exec Proofs.ValidateOverlap Proofs.ValidateRules Proofs.ValidateMerge Proofs.ValidateMemo Proofs.ValidateInputFields Proofs.ValidateArgs.
+     Exec.Exec Proofs.ValidateOverlap Proofs.ValidateRules Proofs.ValidateMerge Proofs.ValidateMemo Proofs.ValidateInputFields Proofs.ValidateArgs Proofs.ValidateCycles.
 Import ListNotations.
 Open Scope string_scope.
 
@@ -214,6 +214,15 @@ Theorem C02_rule_iff_unique_input_field_names : forall S W,
   rule_unique_input_field_names S W <> [] <-> Violates_unique_input_field_names S W.
 Proof. exact unique_input_field_names_iff. Qed.
 Print Assumptions C02_rule_iff_unique_input_field_names.
+
+(* NoFragmentCycles, one direction (partial): the DFS as coded (visitedFrags, spreadPath,
+   spreadPathIndexByName) reports an error only if some fragment reaches itself through
+   spreads.  Missing: every cycle is reported (checked by the differential against an
+   independent reachability test). *)
+Theorem C02_rule_sound_no_fragment_cycles_partial : forall W,
+  rule_no_fragment_cycles W <> [] -> Violates_no_fragment_cycles W.
+Proof. exact no_fragment_cycles_sound. Qed.
+Print Assumptions C02_rule_sound_no_fragment_cycles_partial.
 
 (* ---- non-vacuity ---- *)
 Definition exS : schema :=
